@@ -557,6 +557,18 @@ Unpin(t) ==   \* dropping the user guard: snapshots die; possibly a collection p
     /\ cret' = [cret EXCEPT ![t] = "idle"]
     /\ Goto(t, "unpin")
     /\ UNCHANGED <<gep, mode, lep, cnt, life, lnk, wlnk, tasks, reg, rc, wk, it, nops>>
+React(t) ==   \* Guard::reactivate on the thread's only guard (guard.rs:96-100): unpin (snapshots die, possibly a
+              \* collection phase), then pin again in the then-current epoch
+    /\ CanOp(t, "reactivate") /\ mode[t] = "in"
+    /\ sn' = [sn EXCEPT ![t] = {}] /\ ws' = [ws EXCEPT ![t] = {}]
+    /\ cret' = [cret EXCEPT ![t] = "react_pin"]
+    /\ Goto(t, "unpin") /\ Start(t)
+    /\ UNCHANGED <<gep, mode, lep, cnt, life, lnk, wlnk, tasks, reg, rc, wk, it>>
+ReactPin(t) ==
+    /\ pc[t] = "react_pin" /\ mode[t] = "out"
+    /\ mode' = [mode EXCEPT ![t] = "in"] /\ lep' = [lep EXCEPT ![t] = gep]
+    /\ Goto(t, "idle")
+    /\ UNCHANGED <<gep, cnt, life, lnk, wlnk, tasks, reg, cret, rc, wk, it, sn, ws, nops>>
 Collect(t) == \* cs(); flush(); drop: a pin/unpin pair with a collection phase
     /\ CanOp(t, "collect") /\ mode[t] = "out"
     /\ mode' = [mode EXCEPT ![t] = "col"] /\ lep' = [lep EXCEPT ![t] = gep]
@@ -568,7 +580,7 @@ Collect(t) == \* cs(); flush(); drop: a pin/unpin pair with a collection phase
 \* inside the step that precedes them), the others are one hook site each
 Silent(t) ==
          \/ UnpinChoice(t) \/ ColExec(t) \/ ColRepin(t) \/ ColExit(t) \/ DecPin(t)
-         \/ RcFin(t) \/ UpFin(t) \/ SnFin(t) \/ WkFin(t)
+         \/ RcFin(t) \/ UpFin(t) \/ SnFin(t) \/ WkFin(t) \/ ReactPin(t)
 Atomic(t) ==
          \/ DecEp(t) \/ DecCas(t) \/ Inc1(t) \/ Inc2(t) \/ IsndEp(t) \/ Isnd(t)
          \/ IncW1(t) \/ IncW2(t) \/ DecW(t) \/ TDealloc(t) \/ Free(t) \/ TD(t)
@@ -583,7 +595,7 @@ ApiCall(t) ==
          \/ Downgrade(t) \/ WClone(t) \/ DropWeak(t) \/ WSnap(t) \/ WSUpgrade(t)
          \/ WLoad(t) \/ WLinkOp(t, "wstore", "wst_swap") \/ WLinkOp(t, "wswap", "wsw_swap")
          \/ WLinkOp(t, "wcas", "wcas_try") \/ WLinkOp(t, "wcas_tag", "wcast_try")
-         \/ Pin(t) \/ Unpin(t) \/ Collect(t)
+         \/ Pin(t) \/ Unpin(t) \/ Collect(t) \/ React(t)
 TStep(t) == Silent(t) \/ Atomic(t) \/ ApiCall(t)
 Next == Advance \/ \E t \in Thr : TStep(t)
 
